@@ -198,6 +198,23 @@ def run_case(scn, drv):
                     break
             jm = rs['op'].mapping
             ntot = sum(len(o.c) for o in rs['op'].ops)
+            # the joint mapping describes the joint vector: block k of it is interval k's own mapping, shifted by the
+            # number of variables before it (cost and bounds of the block are those of the interval problem)
+            off = 0
+            key = lambda mm, o_: sorted((int(i) - o_, str(a), str(nd), str(ty)) for i, a, nd, ty in zip(mm.index, mm['asset'], mm['node'], mm['type']))
+            if len(rs['op'].c) == ntot and (not len(jm) or jm.index.max() < ntot):
+                for k, o in enumerate(rs['op'].ops):
+                    nk = len(o.c)
+                    sub = jm[(jm.index >= off) & (jm.index < off + nk)]
+                    if key(sub, off) != key(o.mapping, 0):
+                        r['violations'].append({'oracle': 'mapping_structure', 'detail': 'split: variables %d..%d of the joint problem are those of interval %d, but the joint mapping has %d rows for them where the interval\'s own mapping has %d (or they name other assets/nodes/kinds)' % (
+                            off, off + nk - 1, k, len(sub), len(o.mapping)), 'facts': {'what': 'joint_block'}})
+                        break
+                    if not (np.array_equal(np.asarray(rs['op'].c[off:off + nk]), np.asarray(o.c)) and np.array_equal(np.asarray(rs['op'].l[off:off + nk]), np.asarray(o.l))
+                            and np.array_equal(np.asarray(rs['op'].u[off:off + nk]), np.asarray(o.u))):
+                        r['violations'].append({'oracle': 'mapping_structure', 'detail': 'split: cost/bounds of variables %d..%d of the joint problem differ from those of interval %d' % (off, off + nk - 1, k), 'facts': {'what': 'joint_block_values'}})
+                        break
+                    off += nk
             if len(jm) and (jm.index.max() >= ntot or len(rs['op'].c) != ntot):
                 r['violations'].append({'oracle': 'mapping_structure', 'detail': 'split: joint mapping reaches variable %d of %d' % (int(jm.index.max()), ntot), 'facts': {'what': 'joint_index'}})
         except Exception as e:
